@@ -145,7 +145,20 @@ def run_sankey_case(spec, sl, excl_p, excl_f, split, replot=None):
         else:
             expected.append((src, tgt, sum(region.data.values()), n))
 
+    dn = {}
+    if replot == "display":
+        # display names: two processes share one label, the first flow and an excluded flow are renamed as well
+        dn = {PROCS[1]: "Stage", PROCS[2]: "Stage"}
+        if names:
+            dn[names[0]] = "first flow"
+        for f in exf:
+            dn[f] = "hidden " + f
+        expected = [(a, b, c, (dn.get(lbl, lbl) if lbl in names else lbl)) for a, b, c, lbl in expected]
+
     def go_():
+        if replot == "display":
+            pl = PlotlySankeyPlotter(mfa=mfa, slice_dict=slice_obj(sl), exclude_processes=exp, exclude_flows=exf, flow_color_dict=color, display_names=dn)
+            return pl.plot()
         if name_keys:
             pl = PlotlySankeyPlotter(mfa=mfa, slice_dict={NAMES[k]: v for k, v in slice_obj(sl).items()}, exclude_processes=exp, exclude_flows=exf, flow_color_dict=color)
             return pl.plot()
@@ -175,8 +188,8 @@ def run_sankey_case(spec, sl, excl_p, excl_f, split, replot=None):
     link = tr.link
     got = list(zip([int(x) for x in (link.source or [])], [int(x) for x in (link.target or [])], [float(x) for x in (link.value or [])], [str(x) for x in (link.label or [])]))
     labels = list(tr.node.label or [])
-    if labels != shown_p:
-        return fail("nodes", f"nodes {labels}, shown processes {shown_p}")
+    if labels != [dn.get(p, p) for p in shown_p]:
+        return fail("nodes", f"nodes {labels}, shown processes {[dn.get(p, p) for p in shown_p]}")
     if len(got) != len(expected):
         return fail("links", f"{len(got)} links {got}, expected {len(expected)}: {expected}")
     for g, e in zip(got, expected):
@@ -236,6 +249,8 @@ def run_sankey_unit(u, rec):
                     if u["tier"] == "quick" and len(ep) >= 2 and len(ef) >= 1 and (n % 2):
                         continue
                     rec(*run_sankey_case(spec, sl, ep, ef, list(split) if split else None))
+                    if u["tier"] == "thorough" or n % 7 == 0:
+                        rec(*run_sankey_case(spec, sl, ep, ef, list(split) if split else None, "display"))
                     if (ep or ef) and (u["tier"] == "thorough" or n % 9 == 0):
                         rec(*run_sankey_case(spec, sl, ep, ef, list(split) if split else None, ("assign", "append")[n % 2]))
 
@@ -273,11 +288,27 @@ def run_plot_case(backend, arr_dims, roles, style, xspec, chart):
         kw["x_array"] = FlodymArray(dims=DS(xspec), values=xv, name="xq")
         mx = model_of(xv, xspec)
 
+    kw["title"] = "Scenario overview"
+    decoy_fig = []
+
     def make():
         cls = PlotlyArrayPlotter if backend == "plotly" else PyplotArrayPlotter
+        # another array was plotted before with the SAME title, and that figure is still open
+        kw0 = dict(kw)
+        kw0["array"] = FlodymArray(dims=DS(arr_dims), values=vals * 2.0 + 7.0, name="other quantity")
+        try:
+            decoy_fig.append(cls(**kw0).plot())
+        except Exception:
+            pass
         return cls(**kw).plot()
 
     st, fig = attempt(make)
+    if backend == "pyplot":
+        import matplotlib.pyplot as _plt
+
+        for f0 in decoy_fig:
+            if f0 is not fig:
+                _plt.close(f0)
     if st == "raised":
         return fail("raised", f"raised {fig}")
     try:
